@@ -8,23 +8,24 @@ From BV Require Import Model.Globbing.
 Import ListNotations.
 Local Open Scope N_scope.
 
-Lemma M_suffix : forall r w w', M r w w' -> exists p, w = p ++ w'.
+Lemma M_suffix : forall r s w w', M r s w w' -> exists p, w = p ++ w'.
 Proof.
-  induction r as [|e c| |neg body|a IHa b IHb|a IHa|a IHa|a IHa|a IHa|]; simpl; intros w w' H.
+  induction r as [|e c| |neg body|a IHa b IHb|a IHa|a IHa|a IHa|a IHa|a IHa|]; simpl; intros s w w' H.
   - subst; exists []; reflexivity.
   - subst; exists [c]; reflexivity.
   - destruct H as (c & -> & _); exists [c]; reflexivity.
   - destruct H as (c & -> & _); exists [c]; reflexivity.
   - destruct H as (w1 & H1 & H2).
-    destruct (IHa _ _ H1) as (p1 & ->). destruct (IHb _ _ H2) as (p2 & ->).
+    destruct (IHa _ _ _ H1) as (p1 & ->). destruct (IHb _ _ _ H2) as (p2 & ->).
     exists (p1 ++ p2). rewrite app_assoc; reflexivity.
   - induction H as [x|x y z Hxy Hyz IH].
     + exists []; reflexivity.
-    + destruct (IHa _ _ Hxy) as (p1 & ->). destruct IH as (p2 & ->).
+    + destruct (IHa _ _ _ Hxy) as (p1 & ->). destruct IH as (p2 & ->).
       exists (p1 ++ p2). rewrite app_assoc; reflexivity.
-  - destruct H as [H| ->]; [apply IHa; exact H | exists []; reflexivity].
+  - destruct H as [H| ->]; [eapply IHa; exact H | exists []; reflexivity].
   - destruct H as [-> _]; exists []; reflexivity.
-  - apply IHa; exact H.
+  - eapply IHa; exact H.
+  - eapply IHa; exact H.
   - destruct H as [-> _]; exists []; reflexivity.
 Qed.
 
@@ -63,27 +64,22 @@ Proof.
       apply Nat.ltb_lt in Hlt. rewrite Hlt. apply IH. apply Nat.ltb_lt in Hlt. lia.
 Qed.
 
-Lemma eol_ok_iff w : eol_ok w = true <-> (w = [] \/ w = [cNL]).
-Proof.
-  unfold eol_ok. split.
-  - destruct w as [|x [|y w]]; [left; reflexivity| |discriminate].
-    intros H. apply N.eqb_eq in H. subst x. right; reflexivity.
-  - intros [->| ->]; [reflexivity|apply N.eqb_refl].
-Qed.
+Lemma eol_ok_iff w : eol_ok w = true <-> w = [].
+Proof. unfold eol_ok. destruct w; split; congruence. Qed.
 
-Theorem run_correct : forall r w w', In w' (run r w) <-> M r w w'.
+Theorem run_correct : forall r s w w', In w' (run r s w) <-> M r s w w'.
 Proof.
-  induction r as [|e c| |neg body|a IHa b IHb|a IHa|a IHa|a IHa|a IHa|]; intros w w'; simpl.
+  induction r as [|e c| |neg body|a IHa b IHb|a IHa|a IHa|a IHa|a IHa|a IHa|]; intros s w w'; simpl.
   - split; [intros [<-|[]]; reflexivity | intros ->; left; reflexivity].
   - destruct w as [|x w0]; [split; [intros []|discriminate]|].
     destruct (N.eqb_spec x c) as [->|Hne].
     + split; [intros [<-|[]]; reflexivity | intros H; injection H as <-; left; reflexivity].
     + split; [intros []|intros H; injection H as H1 H2; congruence].
   - destruct w as [|x w0]; [split; [intros []|intros (c & H & _); discriminate]|].
-    destruct (x =? cNL) eqn:E.
-    + split; [intros []|intros (c & H & Hc)]. injection H as <- <-. congruence.
+    destruct (s || negb (x =? cNL)) eqn:E.
     + split; [intros [<-|[]]; exists x; split; [reflexivity|exact E]
              |intros (c & H & Hc); injection H as <- <-; left; reflexivity].
+    + split; [intros []|intros (c & H & Hc)]. injection H as <- <-. congruence.
   - destruct w as [|x w0]; [split; [intros []|intros (c & H & _); discriminate]|].
     destruct (set_mem neg body x) eqn:E.
     + split; [intros [<-|[]]; exists x; split; [reflexivity|exact E]
@@ -100,11 +96,12 @@ Proof.
   - rewrite in_app_iff. split.
     + intros [H|[<-|[]]]; [left; apply IHa; exact H|right; reflexivity].
     + intros [H| ->]; [left; apply IHa; exact H|right; left; reflexivity].
-  - destruct (run a w) as [|y l] eqn:E.
+  - destruct (run a s w) as [|y l] eqn:E.
     + split.
       * intros [<-|[]]. split; [reflexivity|]. intros (w2 & H2). apply IHa in H2. rewrite E in H2. exact H2.
       * intros [-> _]. left; reflexivity.
     + split; [intros []|]. intros [_ Hn]. apply Hn. exists y. apply IHa. rewrite E. left; reflexivity.
+  - apply IHa.
   - apply IHa.
   - pose proof (eol_ok_iff w) as He. destruct (eol_ok w).
     + split; [intros [<-|[]]; split; [reflexivity|apply He; reflexivity]|intros [-> _]; left; reflexivity].
@@ -115,11 +112,11 @@ Qed.
 (* [hit] unfolded *)
 
 Lemma hit_iff pre a w :
-  hit pre a w <-> exists w1 w2, M pre w w1 /\ M a w1 w2 /\ (w2 = [] \/ w2 = [cNL]).
+  hit pre a w <-> exists w1, M pre false w w1 /\ M a false w1 [].
 Proof.
   unfold hit; simpl. split.
-  - intros (w' & w1 & H1 & w2 & H2 & -> & H3). exists w1, w2. auto.
-  - intros (w1 & w2 & H1 & H2 & H3). exists w2, w1. split; [exact H1|]. exists w2. auto.
+  - intros (w' & w1 & H1 & w2 & H2 & -> & ->). exists w1. auto.
+  - intros (w1 & H1 & H2). exists [], w1. split; [exact H1|]. exists []. auto.
 Qed.
 
 
@@ -152,29 +149,29 @@ Qed.
 
 Lemma first_alt_some alts : forall i w1 li,
   first_alt alts i w1 = Some li ->
-  exists j a, li = S (i + j) /\ nth_error alts j = Some a /\ existsb eol_ok (run a w1) = true.
+  exists j a, li = S (i + j) /\ nth_error alts j = Some a /\ existsb eol_ok (run a false w1) = true.
 Proof.
   induction alts as [|a t IH]; simpl; intros i w1 li H; [discriminate|].
-  destruct (existsb eol_ok (run a w1)) eqn:E.
+  destruct (existsb eol_ok (run a false w1)) eqn:E.
   - injection H as <-. exists 0%nat, a. rewrite Nat.add_0_r. auto.
   - destruct (IH _ _ _ H) as (j & a' & -> & Hn & He).
     exists (S j), a'. split; [f_equal; lia|]. auto.
 Qed.
 
 Lemma first_alt_none alts : forall i w1,
-  first_alt alts i w1 = None -> forall a, In a alts -> existsb eol_ok (run a w1) = false.
+  first_alt alts i w1 = None -> forall a, In a alts -> existsb eol_ok (run a false w1) = false.
 Proof.
   induction alts as [|a t IH]; simpl; intros i w1 H a' Hin; [destruct Hin|].
-  destruct (existsb eol_ok (run a w1)) eqn:E; [discriminate|].
+  destruct (existsb eol_ok (run a false w1)) eqn:E; [discriminate|].
   destruct Hin as [<-|Hin]; [exact E|eapply IH; eassumption].
 Qed.
 
 Lemma alt_hit pre a w w1 :
-  M pre w w1 -> existsb eol_ok (run a w1) = true -> hit pre a w.
+  M pre false w w1 -> existsb eol_ok (run a false w1) = true -> hit pre a w.
 Proof.
   intros H1 He. apply existsb_exists in He. destruct He as (w2 & Hin & Hok).
-  apply hit_iff. exists w1, w2. split; [exact H1|]. split; [apply run_correct; exact Hin|].
-  apply eol_ok_iff; exact Hok.
+  apply eol_ok_iff in Hok. subst w2.
+  apply hit_iff. exists w1. split; [exact H1|apply run_correct; exact Hin].
 Qed.
 
 (* lastindex designates an alternative whose single-pattern regex matches *)
@@ -194,11 +191,11 @@ Theorem bt_none pre alts w :
   bt_lastindex pre alts w = None -> forall a, In a alts -> ~ hit pre a w.
 Proof.
   unfold bt_lastindex. intros H a Hin Hh.
-  apply hit_iff in Hh. destruct Hh as (w1 & w2 & H1 & H2 & H3).
-  rewrite first_some_none in H. specialize (H w1 (proj2 (run_correct _ _ _) H1)).
+  apply hit_iff in Hh. destruct Hh as (w1 & H1 & H2).
+  rewrite first_some_none in H. specialize (H w1 (proj2 (run_correct _ _ _ _) H1)).
   pose proof (first_alt_none _ _ _ H a Hin) as Hf.
-  assert (Ht : existsb eol_ok (run a w1) = true).
-  { apply existsb_exists. exists w2. split; [apply run_correct; exact H2|apply eol_ok_iff; exact H3]. }
+  assert (Ht : existsb eol_ok (run a false w1) = true).
+  { apply existsb_exists. exists []. split; [apply run_correct; exact H2|reflexivity]. }
   congruence.
 Qed.
 
